@@ -2185,6 +2185,25 @@ def check_C10(tier, seed):
               "(intern \"\")", "(make-symbol \"\")", "(eval '(1 2))", "(eval ''a)", "(macroexpand '(when))", "(macroexpand '(-> ))", "(setq x '(progn (macroexpand x))) (eval x)", "(setq x (list 'append 'x)) (eval x)",
               "(setq l '(1 2)) (append l l)", "(setq l '(1 2)) (equal l l)", "(setq s 'q) (append s s)", "(let ((l (list 1 2))) (sort l (lambda (a b) (append l l) nil)))"]
     for sh in shapes: items.append((sh, {'name': 'shape'}))
+    # unevaluated structure in the binder / parameter / clause position of every binding form (the sweep above only passes
+    # argument expressions): well-formed, empty, dotted, over-long, non-symbol and nil / t / keyword names, &optional / &rest markers
+    structs = ['()', '(a)', '(a 1)', '((a 1))', '((a 1) (b 2))', '((nil 1))', '((a))', '(())', '((a . 1))', '((a 1 2))', '((1 2))', '(("s" 1))', '((:k 1))', '((t 1))', '((a 1) . 5)', '(a . 1)',
+               '(a 1 . 2)', '((a 1) b)', '(&optional a)', '(a &rest)', '(a &optional b &rest c)', '(&rest)', '(&optional)', "(x (list 1 2))", "(x '(1 2) a)", "(x '(1 2) a b)", '(i 2)', '(i 2 a)', '(i 2 a b)',
+               '((a 1) (nil 2))', '(((a) 1))', '((a (nofn)))', '((a 1) (b (nofn)))', '(a a)', '((a 1) (a 2))', '(nil)', '(t)', '(:k)', '((a 1) nil)', '5', '"s"', 'a']
+    bodies = ['a', '(list a)', 'zz-unbound', '(setq a 2)']
+    for nme in ['let', 'let*', 'dolist', 'dotimes', 'if-let', 'if-let*', 'when-let', 'lambda', 'cond', 'setq', 'and', 'or', 'progn', 'when', 'unless', 'if', '->', '->>', 'quote', 'defun', 'defmacro']:
+        for st_ in structs:
+            if nme in ('defun', 'defmacro'):
+                items.append(('(%s ff %s)' % (nme, st_), {'name': nme + '-struct'}))
+                for b_ in bodies: items.append(('(%s ff %s %s) (list (ff) (ff 1) (ff 1 2) (ff 1 2 3))' % (nme, st_, b_), {'name': nme + '-struct'}))
+                items.append(('(%s ff %s "doc" a) (ff 1 2)' % (nme, st_), {'name': nme + '-struct'}))
+                continue
+            head = '(funcall (lambda %s' if nme == 'lambda' else '(' + nme + ' %s'
+            tail = ') 1 2)' if nme == 'lambda' else ')'
+            items.append(((head % st_) + tail, {'name': nme + '-struct'}))
+            for b_ in bodies:
+                items.append(((head % st_) + ' ' + b_ + tail, {'name': nme + '-struct'}))
+                items.append(((head % st_) + ' ' + b_ + ' ' + rng.choice(bodies) + tail + ' a', {'name': nme + '-struct'}))
     # format: every directive character (ASCII and multi-byte), in every position, with every kind of argument
     dchars = ['d', 's', 'S', 'f', '%', 'c', 'x', 'e', 'g', ' ', '-', '5', '.', '\\n', '\\"', '\u00e9', '\u20ac', '\u6f22', '\U0001F600', '']
     for dc in dchars:
